@@ -37,12 +37,16 @@ impl LuaOperatorIndex {
         let owner = operator.get_owner().clone();
         let op = operator.get_op();
         self.operators.insert(id, operator);
-        self.type_operators_map
+        // operators of one owner are kept in (file id, position) order, so that overload
+        // resolution does not depend on which file was (re)analysed last
+        let ids = self
+            .type_operators_map
             .entry(owner)
             .or_default()
             .entry(op)
-            .or_default()
-            .push(id);
+            .or_default();
+        let pos = ids.partition_point(|x| (x.file_id, x.position) < (id.file_id, id.position));
+        ids.insert(pos, id);
         self.in_filed_operator_map
             .entry(id.file_id)
             .or_default()
